@@ -181,6 +181,19 @@ def run(rep, drv):
 				for dS in (-sd, -0.05, 0.05, sd, 10 * sd):
 					_, pa = call(nvm.newsvendor_normal_explicit, r, c0, v, mean, sd, h, p, L, S + dS)
 					if pa > prof + 1e-9 * max(1, abs(prof)): errs.append('S=%r gives higher profit' % (S + dS))
+				# Poisson version: profit defined by expectation over the Poisson lead-time demand; optimum over integer levels
+				lamP = rng.choice([3, 8, 15])
+				Sp, profp = call(nvm.newsvendor_poisson_explicit, r, c0, v, lamP, h, p, L)
+				_, profp2 = call(nvm.newsvendor_poisson_explicit, r, c0, v, lamP, h, p, L, Sp)
+				if not close(profp, profp2, 1e-8): errs.append('poisson explicit: reported profit %r != evaluated %r' % (profp, profp2))
+				muP = lamP * (L + 1)
+				ks = range(0, int(stats.poisson.ppf(1 - 1e-13, muP)) + 5)
+				def prof_def(y):
+					return sum(float(stats.poisson.pmf(k, muP)) * (r * min(y, k) + v * max(y - k, 0) - h * max(y - k, 0) - p * max(k - y, 0)) for k in ks) - c0 * y
+				if not close(profp, prof_def(int(Sp)), 1e-7): errs.append('poisson explicit: profit %r but the definition gives %r at S=%r' % (profp, prof_def(int(Sp)), Sp))
+				for dS in (-2, -1, 1, 2):
+					_, pa = call(nvm.newsvendor_poisson_explicit, r, c0, v, lamP, h, p, L, Sp + dS)
+					if pa > profp + 1e-9 * max(1, abs(profp)): errs.append('poisson explicit: S=%r gives higher profit' % (Sp + dS))
 			elif which == 'myopic':
 				c1, c2_, g = 1.0, rng.choice([0.8, 1.0, 1.1]), rng.choice([1.0, 0.95])
 				S, c = call(nvm.myopic, h, p, c1, c2_, mean, sd, g)
@@ -191,6 +204,13 @@ def run(rep, drv):
 					gS = call(nvm.newsvendor_normal_cost, S + dS, h, p, mean, sd)
 					if not close(ca, c1 * (S + dS) + gS - g * c2_ * (S + dS - mean), 1e-9): errs.append('myopic cost != c y + g(y) - gamma c+(y - mu)')
 					if ca < c - 1e-9 * max(1, abs(c)): errs.append('y=%r is better' % (S + dS))
+				# level sets: set_myopic_cost_to(cost) returns y on the requested side of the minimiser with G(y) = cost
+				for side in (True, False):
+					target = c + rng.choice([0.5, 2.0, 5.0])
+					y = call(nvm.set_myopic_cost_to, target, h, p, c1, c2_, mean, sd, g, side)
+					gy = call(nvm.myopic_cost, y, h, p, c1, c2_, mean, sd, g)
+					if not close(gy, target, 1e-6) or (side and y > S + 1e-6) or ((not side) and y < S - 1e-6):
+						errs.append('set_myopic_cost_to(%r, left_half=%s) = %r: G(y) = %r, minimiser %r' % (target, side, y, gy, S))
 			elif which == 'continuous':
 				dist = rng.choice([stats.gamma(4, scale=mean / 4), stats.uniform(mean / 2, mean), stats.norm(mean, sd)])
 				S, c = call(nvm.newsvendor_continuous, h, p, demand_distrib=dist)
